@@ -2,7 +2,7 @@
 import srvprops
 
 PROP = "C12"
-THEOREMS = ["C12_exactly_one_reply", "C12_any_frame", "C12_inflight_zero_drops", "C12_reply_then_close_witness", "C12_oversize_reply_replaced_under_its_own_id", "C12_conc_reply_discipline", "C12_conc_always_drains"]
+THEOREMS = ["C12_exactly_one_reply", "C12_any_frame", "C12_inflight_zero_drops", "C12_reply_then_close_witness", "C12_oversize_reply_replaced_under_its_own_id", "C12_conc_reply_discipline", "C12_conc_always_drains", "C12_source_refusal_order"]
 
 
 import serverlib as sl
